@@ -224,6 +224,8 @@ def c04(ctx):
     # ids at the top edge of full-size tables, few local names under many resident namespaces
     out += ref_sweep(ctx, ctx.n(300, 3000), igs=("g",), modes=("flat",), churn=True, edge=True)
     out += external_streams(ctx)
+    # literals of xsd:token / xsd:normalizedString whose lexical form the whiteSpace facet would rewrite: a reader hands out the form sent
+    out += ref_sweep(ctx, ctx.n(30, 500), igs=("g", "r"), modes=("flat", "grouped", "to_graph"), rdf11=True, facet_p=0.35)
     return out
 
 
